@@ -294,6 +294,7 @@ func (n *node[T]) add(value T, compare func(a, b T) int) *node[T] {
 			n.right = n.right.add(value, compare)
 		}
 	}
+	n.height = n.calcHeight()
 	return n.rebalance()
 }
 
